@@ -277,7 +277,7 @@ func (ex *Exec) objectRef(st *State, e ast.Expr) (*Term, *types.Named, bool) {
 		return nil, nil, false
 	}
 	if pt, ok := t.Underlying().(*types.Pointer); ok {
-		if n := namedOf(pt.Elem()); n != nil {
+		if n, isNamed := types.Unalias(pt.Elem()).(*types.Named); isNamed && n != nil {
 			if _, ok := n.Underlying().(*types.Struct); ok {
 				v := ex.eval(st, e)
 				if v.Loc != nil {
